@@ -499,6 +499,9 @@ void MDSDRV_Data::add_pitch_node(const char* s, bool extend, std::vector<uint8_t
 			env_data->push_back(env_delta);
 			env_data->push_back(env_len - 1);
 		}
+		// node positions (loop targets) are single bytes
+		if(env_data->size() > (extend ? 6u : 4u) * 256)
+			throw InputError(nullptr, "pitch envelope is too long (more than 256 nodes)");
 		// apply delta and decrease length counter
 		counter += (env_delta * env_len) / 256;
 		length -= env_len;
